@@ -112,7 +112,33 @@ def find_operator_fn(prog):
             return g_ is not None and g_.full and not g_.is_closure and g_.path != base.path \
                 and g_.path in _inline.private_helpers(prog, base) \
                 and any(t.replace("&", "").strip() == BINOP for t in g_.locals[1:g_.arg_count + 1])
-        if any((not x.is_ptr) and (_inline.is_accessor(prog.fns.get(x.res)) or _takes_op(x)) for x in f0.calls()):
+        def _worker_closure(x):
+            """an own closure, called directly, that does part of the
+            operator's work: it calls a hand-written function (the comparison
+            helpers) or an i64 primitive — not a mere error constructor"""
+            g_ = prog.fns.get(x.res) if not x.is_ptr else None
+            if g_ is None or not g_.full or not g_.is_closure or g_.root_fn().path != base.path:
+                return False
+            for y in g_.calls():
+                if y.is_ptr:
+                    continue
+                h_ = prog.fns.get(y.res)
+                if h_ is not None and h_.full and not h_.is_closure and not h_.from_expansion \
+                        and not h_.generated and h_.impl_trait is None:
+                    return True
+                if (y.res or "").startswith("core::num::<impl i64>::"):
+                    return True
+            return False
+        if any(_worker_closure(x) for x in f0.calls()):
+            def _pick_workers(call):
+                g_ = prog.fns.get(call.res)
+                if g_ is not None and g_.is_closure:
+                    return _worker_closure(call)
+                return _arm_helper(call)
+            v = _inline.view(prog, base, pick=_pick_workers, accessors=True, closures=True)
+            s = shape(v) if v is not base else None
+            out_.append(s if s else c)
+        elif any((not x.is_ptr) and (_inline.is_accessor(prog.fns.get(x.res)) or _takes_op(x)) for x in f0.calls()):
             v = _inline.view(prog, base, pick=_arm_helper, accessors=True)
             s = shape(v) if v is not base else None
             out_.append(s if s else c)
@@ -350,6 +376,17 @@ def try_chain_source(f, operand, max_steps=12):
     cp = f.canon(mir.op_place(operand))
     for _ in range(max_steps):
         root = cp[0]
+        if root[0] == "local":
+            # a Result/Option local built per path (`match h() { Ok(v) => Ok(v),
+            # Err(e) => Err(wrap(e)) }`, the result slot of an inlined closure):
+            # the success payload is the operand of its one Ok/Some aggregate
+            ds = f.defs().get(root[1], [])
+            hits = [p for (_, _, k, p) in ds if k == "rv" and p[0] == "agg" and p[1].get("variant") in ("Ok", "Some")]
+            if ds and all(k == "rv" and p[0] == "agg" for (_, _, k, p) in ds) and len(hits) == 1 \
+                    and hits[0][2] and mir.is_place_operand(hits[0][2][0]):
+                cp = f.canon(mir.op_place(hits[0][2][0]))
+                continue
+            return None
         if root[0] != "call":
             return None
         c = f.call_at(root[1])
@@ -358,7 +395,9 @@ def try_chain_source(f, operand, max_steps=12):
         d = c.declared or ""
         if d in ("std::ops::Try::branch",) or d.endswith("ResultExt::context") \
                 or d in ("std::hint::must_use", "std::convert::From::from",
-                         "std::convert::Into::into"):
+                         "std::convert::Into::into") \
+                or (c.res or "").endswith(("Result::<T, E>::map_err", "Option::<T>::ok_or", "Option::<T>::ok_or_else")):
+            # (map_err / ok_or* keep the success payload)
             if c.args and mir.is_place_operand(c.args[0]):
                 cp = f.canon(mir.op_place(c.args[0]))
                 continue
